@@ -1,3 +1,6 @@
+import sys, os
+sys.path.insert(0, os.path.dirname(os.path.dirname(os.path.abspath(__file__))))
+from symex import summaries
 ID = "C17"
 PATTERNS = ["./core/client"]
 HARNESS_FILES = ["core/client/zz_verif_c17.go"]
@@ -12,6 +15,7 @@ HARNESSES += [
     {"name": "luckyreset", "fn": P + "VerifC17LuckyReset", "bounds": "N=3, k=2, 4 samples before and 4 after Reset"},
     {"name": "ntimedresetstate", "fn": P + "VerifC17NtimedResetState", "bounds": "arbitrary internal states, explicit reset and epoch change, one sample", "cfg": NT, "timeout_quick": 200},
     {"name": "ntimedreset", "timeout_quick": 200, "fn": P + "VerifC17NtimedReset", "bounds": "arbitrary internal state, 3 samples after the reset", "cfg": NT},
+    {"name": "ntimedrawthird", "fn": P + "VerifC17NtimedRawThird", "bounds": "third sample after a reset from a concrete noise-free two-sample history; every sample", "cfg": NT, "install": [summaries.install_fp_duration_summaries]},
     {"name": "ntimedraw", "fn": P + "VerifC17NtimedRaw", "bounds": "arbitrary internal state with navg in {0,1,2}, one sample", "cfg": NT},
 ]
 ASSUMPTIONS = ["slices.SortFunc by contract", "Ntimed: floating-point products/quotients/sqrt of symbolic operands are uninterpreted functions; float->int conversion range not checked; the numeric closeness of the Ntimed output to the integer offset is NOT decided (DESIGN C17)",
